@@ -15,14 +15,19 @@ from ..real import walk
 LEVEL = "proof"
 
 
-def _hw_spec():
+def hw_name(seed):
+    """the derived resource is requested under its default name or under a caller-chosen one"""
+    return "qubit_highwater" if seed % 3 else "peak_width"
+
+
+def _hw_spec(name="qubit_highwater"):
     from bartiq.compilation.derived_resources import calculate_highwater
 
-    return [{"name": "qubit_highwater", "type": "qubits", "calculate": calculate_highwater}]
+    return [{"name": name, "type": "qubits", "calculate": calculate_highwater}]
 
 
-def compile_kw():
-    return {"derived_resources": _hw_spec()}
+def compile_kw(seed):
+    return {"derived_resources": _hw_spec(hw_name(seed))}
 
 
 def gen(seed, extra):
@@ -35,8 +40,8 @@ def gen(seed, extra):
     # now and then a routine already CARRIES a resource named like the derived one (a stale value from an earlier export, a
     # hand-written estimate): the derived value replaces it
     def stale(n):
-        if n["repetition"] is None and rng.random() < 0.12 and not any(r["name"] == "qubit_highwater" for r in n["resources"]):
-            n["resources"].append({"name": "qubit_highwater", "type": "qubits", "value": E.num(rng.randint(0, 3))})
+        if n["repetition"] is None and rng.random() < 0.12 and not any(r["name"] == hw_name(seed) for r in n["resources"]):
+            n["resources"].append({"name": hw_name(seed), "type": "qubits", "value": E.num(rng.randint(0, 3))})
         for c in n["children"]:
             stale(c)
     stale(spec)
@@ -79,7 +84,7 @@ def expected_hw(node, env, salt, feats):
     return anc + max(moments)
 
 
-def flow_request(node, env, salt):
+def flow_request(node, env, salt, HW="qubit_highwater"):
     """the VALUES the running-flow loop of calculate_highwater works on, read off the real compiled node at a numeric point
     (total sizes of input+through / output+through ports of the node and of each child in sorted_children() order, each
     child's own compiled highwater) as a request line for the Lean model `highwaterImpl`"""
@@ -91,18 +96,19 @@ def flow_request(node, env, salt):
 
     anc = E.sympy_ev(node.resources["local_ancillae"].value, dict(env), salt) if "local_ancillae" in node.resources else Fraction(0)
     kids = " ".join(f"({fr(total(c, ('input', 'through')))} {fr(total(c, ('output', 'through')))} "
-                    f"{fr(E.sympy_ev(c.resources['qubit_highwater'].value, dict(env), salt))})" for c in node.sorted_children())
+                    f"{fr(E.sympy_ev(c.resources[HW].value, dict(env), salt))})" for c in node.sorted_children())
     return f"highwater {fr(anc)} {fr(total(node, ('input', 'through')))} {fr(total(node, ('output', 'through')))} {kids}"
 
 
 def model_correspondence(cr, env, salt, res, case):
+    HW = hw_name(case.seed)
     from .. import model
 
     reqs, gots, where = [], [], []
     for path, node in walk(cr):
         try:
-            reqs.append(flow_request(node, env, salt))
-            gots.append(E.sympy_ev(node.resources["qubit_highwater"].value, dict(env), salt))
+            reqs.append(flow_request(node, env, salt, HW))
+            gots.append(E.sympy_ev(node.resources[HW].value, dict(env), salt))
             where.append(path)
         except (E.Undefined, OverflowError, KeyError):
             if len(reqs) > len(gots):
@@ -122,6 +128,7 @@ def model_correspondence(cr, env, salt, res, case):
 def oracle(case, res, extra):
     if case.status != "ok":
         return
+    HW = hw_name(case.seed)
     cr = case.result.routine
     rng = random.Random(case.seed * 47 + 7)
     feats = set()
@@ -131,8 +138,8 @@ def oracle(case, res, extra):
         salt = rng.randint(0, 10**6)
         try:
             for path, node in walk(cr):
-                if "qubit_highwater" not in node.resources:
-                    res.violation("failing-input", f"no qubit_highwater at {'.'.join(path) or 'root'}", {"qref": case.qref}, sorted(node.resources), "qubit_highwater")
+                if HW not in node.resources:
+                    res.violation("failing-input", f"no {HW} at {'.'.join(path) or 'root'}", {"qref": case.qref, "derived_resource_name": HW}, sorted(node.resources), HW)
                     return
                 # domain of the property: non-negative port sizes
                 if any(E.sympy_ev(p.size, dict(env), salt) < 0 for p in node.ports.values()):
@@ -141,11 +148,11 @@ def oracle(case, res, extra):
                 model_correspondence(cr, env, salt, res, case)
             for path, node in walk(cr):
                 exp = expected_hw(node, env, salt, feats)
-                got = E.sympy_ev(node.resources["qubit_highwater"].value, dict(env), salt)
+                got = E.sympy_ev(node.resources[HW].value, dict(env), salt)
                 res.stats["highwater_values_checked"] += 1
                 if not compare.close(got, exp, True):
                     res.violation("failing-input", f"qubit highwater of {'.'.join(path) or 'root'} is not local ancillae + the maximum over all cuts",
-                                  {"qref": case.qref, "point": env}, {"compiled": str(node.resources["qubit_highwater"].value), "value": got}, exp)
+                                  {"qref": case.qref, "point": env, "derived_resource_name": HW}, {"compiled": str(node.resources[HW].value), "value": got}, exp)
                     return
         except (E.Undefined, OverflowError, KeyError):
             res.stats["point_skipped"] += 1
@@ -172,9 +179,10 @@ def run(ctx, widen=False):
 def replay(payload):
     from ..real import try_compile
 
-    st, r = try_compile(payload["input"]["qref"], derived_resources=_hw_spec())
+    HW = payload["input"].get("derived_resource_name", "qubit_highwater")
+    st, r = try_compile(payload["input"]["qref"], derived_resources=_hw_spec(HW))
     print("compile:", st, "| recorded:", payload.get("what"))
     if st == "ok":
         for p, n in walk(r.routine):
-            print(".".join(p) or "root", "qubit_highwater =", n.resources.get("qubit_highwater").value)
+            print(".".join(p) or "root", HW, "=", n.resources.get(HW).value)
     return 0
